@@ -13,6 +13,7 @@ import Gotree.Lemmas.C02Readers
 import Gotree.Lemmas.C02Chan
 import Gotree.Lemmas.C02onC01
 import Gotree.Lemmas.C02NewickEq
+import Gotree.Gen.C02Goroutine
 
 namespace Gotree.C02
 open Gotree
@@ -37,8 +38,14 @@ theorem newick_no_panic_C01 (C : Gotree.Newick.Codec) (b : List UInt8) (m : Stri
     class and the same delivered tree — `ok t` ↦ `ok ⟨t, false⟩`, `err` ↦ `err`, `panic` ↦ `panic` — wherever
     C01's model does not give up with `unrep` (a NaN/±Inf would have to be stored in a `Rat` field). -/
 theorem newick_models_agree (b : List UInt8) :
-    NewickEq.RelOut (Gotree.Newick.parse NewickEq.myCodec (decodeLossy b)) (Newick.parse b) :=
+    NewickEq.RelOutT (Gotree.Newick.parse NewickEq.myCodec (decodeLossy b)) (Newick.parse b) :=
   NewickEq.parse_agree (decodeLossy b)
+
+/-- … and they stand at the same place of the input afterwards (`parseR`: one `Parser` reused for the next
+    tree of the line, 3850fd2): `ok (t, rest)` ↦ `ok ⟨t, false, rest⟩` -/
+theorem newick_models_agree_rest (b : List UInt8) :
+    NewickEq.RelOut (Gotree.Newick.parseR NewickEq.myCodec (decodeLossy b)) (Newick.parse b) :=
+  NewickEq.parseR_agree (decodeLossy b)
 
 /-- … in particular the outcome classes agree -/
 theorem newick_models_same_class (b : List UInt8) :
@@ -46,7 +53,7 @@ theorem newick_models_same_class (b : List UInt8) :
     (∀ m, Gotree.Newick.parse NewickEq.myCodec (decodeLossy b) = .err m → (Newick.parse b).cls = .err) := by
   have h := newick_models_agree b
   constructor
-  · intro t ht; rw [ht] at h; simp only [NewickEq.RelOut] at h; rw [h]; rfl
+  · intro t ht; rw [ht] at h; obtain ⟨r, h'⟩ := h; rw [h']; rfl
   · intro m hm; rw [hm] at h; obtain ⟨m', h'⟩ := h; rw [h']; rfl
 
 /-- the Nexus parser neither panics nor hangs, whatever the Newick parser it is given does short of panicking -/
@@ -74,15 +81,15 @@ theorem nexus_no_panic (b : List UInt8) :
     scanner returns at the end of the input halts it within three deliveries -/
 theorem nexus_eof_halts (s : Nexus.St) : (Nexus.atEOF {} s).halt.isSome = true := Nexus.eof_halts s
 
-/-- the number of iterations of all the parser loops together is bounded by the length of the input: one
-    token per character at most, one control step per token, and three more at the end of the input -/
+/-- the scanner yields at most one token per character of the input (the parser, a fold over the tokens,
+    then makes one control step per token and three more at the end of the input: `Nexus.runToks`) -/
 theorem nexus_steps_linear (b : List UInt8) : (Nexus.tokens (decodeLossy b)).length ≤ (decodeLossy b).length :=
   Nexus.tokens_length_le _
 
 /-- `ReadMultiTrees(FORMAT_NEWICK)`, for EVERY sequence of chunks `bufio.ReadLine` may return
     (any buffer size, any splitting): the reader goroutine never panics and always closes the channel -/
 theorem multi_no_panic (chunks : List Readers.Chunk) : (Readers.multiNewick chunks).crashed = false :=
-  Readers.multiNewickWith_not_crashed _ Newick.parse_no_panic chunks
+  Readers.multiNewickWith_not_crashed chunks
 
 /-- the records sent by the reader goroutine are numbered 0, 1, 2, …, there is at least one, and only the
     last one may carry an error (the reader stops at the first error) -/
@@ -95,6 +102,15 @@ theorem multi_records_shape (chunks : List Readers.Chunk) (rs : List Readers.Rec
 theorem channel_delivers_all (sched : List Chan.Actor) (recs : List Readers.Rec) :
     Chan.done (Chan.simulate sched recs) = true ∧ (Chan.simulate sched recs).got = recs :=
   Chan.simulate_correct sched recs
+
+/-- the shape of the goroutine of `utils.ReadMultiTrees`, extracted from the working tree on every run
+    (harness/c02/extract.go → Gen/C02Goroutine.lean), is the one the channel model assumes: a channel of that
+    capacity, every send on it, no `return` and no `panic` inside the goroutine, one `close`, as last statement;
+    a change of that shape (e.g. a `return` before the `close`) makes this decision fail -/
+theorem reader_goroutine_shape :
+    Gen.C02.chanCap = Chan.cap ∧ Gen.C02.goStatements = 1 ∧ Gen.C02.returnsInGoroutine = 0 ∧ Gen.C02.panicCalls = 0 ∧
+    Gen.C02.closeCalls = 1 ∧ Gen.C02.lastStmtIsClose = true ∧ Gen.C02.sendsElsewhere = 0 ∧ Gen.C02.returnsTheChannel = true := by
+  decide
 
 /-- no deadlock: unless the range has ended, the producer or the consumer can move -/
 theorem channel_progress (s : Chan.Sys Readers.Rec) (h : Chan.done s = false) :
@@ -118,14 +134,27 @@ theorem readLines_bounded (cs : List Readers.Chunk) : (Readers.readLines cs).len
       simp only [List.length_cons]; omega
     · simp
 
-/-- `cladeToTree` of PhyloXML and Nextstrain on every decoded clade structure -/
+/-- `cladeToTree` of PhyloXML on every decoded clade structure: the two pointer fields (`*(c.BranchLength)`,
+    `*(c.Confidence)`) are dereferenced in the model where the Go code dereferences them, and the tests the code
+    makes protect every dereference.  (Only from the DECODED structure: encoding/xml is outside the model, see
+    `partial_theorems`.)  `nextstrain.cladeToTree` has no pointer, index or map expression at all: its model has no
+    panic site, so the last two conjuncts hold by the shape of the definitions and say no more than that. -/
 theorem clades_no_panic (ps : List Readers.Clade) (v : String) (n : Readers.NsNode) :
     (Readers.phyloxmlOne ps).crashed = false ∧ (Readers.phyloxmlMulti ps).crashed = false ∧
     (Readers.nextstrainOne v n).crashed = false ∧ (Readers.nextstrainMulti v n).crashed = false := by
-  refine ⟨?_, rfl, ?_, ?_⟩
+  refine ⟨?_, ?_, ?_, ?_⟩
   · unfold Readers.phyloxmlOne; split
     · rfl
-    · split <;> rfl
+    · split
+      · rename_i m h; exact absurd h (Readers.pxTree_no_panic _ m)
+      · rfl
+      · rfl
+  · unfold Readers.phyloxmlMulti; split
+    · rfl
+    · split
+      · rfl
+      · rfl
+      · rename_i m h; exact absurd h (Readers.pxRecs_no_panic _ 0 m)
   · unfold Readers.nextstrainOne; split
     · rfl
     · split <;> rfl
@@ -151,10 +180,40 @@ theorem reinit_ok_characterised (t : T) : reinit t = .ok ↔ (hasDup t.tipNames 
 theorem traversals_consistent (t : T) : nEdges t + 1 = nNodes t ∧ t.tipNames.length ≤ nNodes t :=
   ⟨edges_nodes t, tipNames_le_nodes t⟩
 
-/-- ★ whatever a reader delivers can be traversed and indexed without a crash (writing is total by type) -/
-theorem delivered_usable (out : Readers.ROut) (rs : List Readers.Rec) (_h : out = .ok rs) :
+/-- ★ every tree VALUE can be traversed and indexed without a crash — whatever produced it.  This is all
+    `delivered_usable` ever said: usability does not depend on which reader delivered the tree (the readers'
+    outputs are tree values), so no hypothesis about the reader is needed.  Writing a tree back is not
+    modelled here: the harness calls `Newick()`, `Nexus()` and `WritePhyloXML` on every delivered tree and the
+    oracle requires that they return. -/
+theorem delivered_usable (t : T) : reinit t ≠ .panic ∧ walkAll t = .ok :=
+  ⟨reinit_no_panic t, walkAll_ok t⟩
+
+/-- … instantiated at the readers, in the words of the property -/
+theorem newick_delivered_usable (b : List UInt8) (rs : List Readers.Rec) (_h : Readers.newickOne b = .ok rs) :
     ∀ r ∈ rs, ∀ t nf, r.tree = some (t, nf) → reinit t ≠ .panic ∧ walkAll t = .ok :=
-  fun _ _ t _ _ => ⟨reinit_no_panic t, walkAll_ok t⟩
+  fun _ _ t _ _ => delivered_usable t
+
+/-- "either reports an error or delivers trees", multi-tree Newick: the reader never ends without a record
+    (for Nexus and PhyloXML streams the code sends no record when the document holds no tree: see the oracle
+    clause `reportsOrDelivers` and the finding `Empty-stream-without-error`) -/
+theorem multi_reports_or_delivers (chunks : List Readers.Chunk) (rs : List Readers.Rec) (h : Readers.multiNewick chunks = .ok rs) :
+    rs ≠ [] := (Readers.multiNewick_shape chunks rs h).2.2
+
+/-- "either reports an error or delivers trees", single-tree entry points: `ok` always comes with a record -/
+theorem single_reports_or_delivers (b : List UInt8) (ps : List Readers.Clade) (v : String) (n : Readers.NsNode) :
+    (∀ rs, Readers.newickOne b = .ok rs → rs ≠ []) ∧ (∀ rs, Readers.nexusOne b = .ok rs → rs ≠ []) ∧
+    (∀ rs, Readers.phyloxmlOne ps = .ok rs → rs ≠ []) ∧ (∀ rs, Readers.nextstrainOne v n = .ok rs → rs ≠ []) := by
+  refine ⟨?_, ?_, ?_, ?_⟩
+  · intro rs h; unfold Readers.newickOne at h; split at h <;> (try cases h) <;> simp
+  · intro rs h; unfold Readers.nexusOne at h; split at h <;> (try cases h) <;> simp
+  · intro rs h; unfold Readers.phyloxmlOne at h
+    split at h
+    · cases h
+    · split at h <;> (try cases h) <;> simp
+  · intro rs h; unfold Readers.nextstrainOne at h
+    split at h
+    · cases h
+    · split at h <;> (try cases h) <;> simp
 
 /-! ### the behaviours before the fixes (negative theorems on the pinned variants) -/
 
@@ -185,6 +244,12 @@ theorem scan_nul_pinned_truncates :
     never ends -/
 theorem channel_without_close_never_ends (recs : List Readers.Rec) (sched : List Chan.Actor) :
     Chan.done (Chan.run false sched (Chan.init recs)) = false := Chan.no_close_deadlocks recs sched
+
+/-- own breakage B4: without the `if c.Confidence != nil` test an inner clade without confidence crashes -/
+theorem phyloxml_conf_unchecked_fails :
+    (Readers.pxTreeWith { confUnchecked := true }
+      (.mk "" "" "" none none [.mk "" "" "" none none [.mk "a" "" "" none none []], .mk "b" "" "" none none []])).isPanic = true := by
+  decide
 
 /-! ### the hypotheses / witnesses are not vacuous -/
 
